@@ -151,6 +151,31 @@ let run_history line =
       let b = int_of_string pid mod nb in
       let sh = function Some v -> "q" ^ string_of_n v | None -> "none" in
       emit (sh (get_partition_sequence stores.(b) (n_of_string pid))) (sh (spec_partition_sequence specs.(b) (n_of_string pid)))
+    | ["SX"; lo; hi; kind] ->
+      (* sweep of never-written keys: the model (and the spec) hold nothing for them *)
+      let lo = int_of_string lo and hi = int_of_string hi in
+      let found = ref [] in
+      for id = lo to hi - 1 do
+        if kind = "p" then begin
+          if not (Array.exists (fun p -> p = id) !keys) then begin
+            let b = id mod nb in
+            (match scan stores.(b) (KPartition (n_of_int id)) N0 Fwd (nat_of_int 50) with
+             | Some (bt :: _) when bt <> [] -> found := Printf.sprintf "p%d:%s" id (String.concat " " (List.map (fun c -> show_group (committed_events c)) bt)) :: !found
+             | Some _ -> ()
+             | None -> found := Printf.sprintf "p%d:err" id :: !found);
+            (match get_partition_sequence stores.(b) (n_of_int id) with Some q -> found := Printf.sprintf "p%d:seq%s" id (string_of_n q) :: !found | None -> ())
+          end
+        end else begin
+          for b = 0 to nb - 1 do
+            (* a stream id that was written is skipped by the harness; the model only reports what it holds *)
+            (match scan stores.(b) (KStream (n_of_int id)) N0 Fwd (nat_of_int 50) with
+             | Some (bt :: _) when bt <> [] -> found := Printf.sprintf "s%d:%s" id (String.concat " " (List.map (fun c -> show_group (committed_events c)) bt)) :: !found
+             | _ -> ())
+          done
+        end
+      done;
+      let r = String.concat " " (List.rev !found) in
+      emit r ""
     | ["RO"] ->
       for b = 0 to nb - 1 do stores.(b) <- reopen (publish stores.(b)); lastapp.(b) <- None done;
       emit "ok" "ok"
